@@ -378,7 +378,7 @@ func init() {
 			if args[0].(*value) == nil {
 				panic(rtErr("runtime error: invalid memory address or nil pointer dereference"))
 			}
-			fr.ex().lockEvent(name, args[0].(*value))
+			fr.i.lockOp(name, args[0].(*value), fr)
 			return nil
 		}
 	}
